@@ -178,6 +178,202 @@ def real_iter_splitlines(path, chunk_size):
     return lines, chunks
 
 
+def real_streamed(which, path, chunk_size):
+    """the REAL composition parser(iter_splitlines(path, chunk_size)).  For gde/paml/phylip this is the registry's
+    LineBasedParser itself (parse/sequence.py) with its iter_splitlines bound to the small chunk size; for FASTA the
+    line based MinimalFastaParser fed with the stream.  Returns (records | {"err":..}, chunks read from the file)."""
+    from cogent3.parse import sequence as pseq
+    from cogent3.parse.fasta import MinimalFastaParser
+    from cogent3.util import io as c3io
+
+    chunks = []
+    orig_open, orig_iter = c3io.open_, pseq.iter_splitlines
+
+    def rec_open(*a, **kw):
+        return _RecordingFile(orig_open(*a, **kw), chunks)
+
+    c3io.open_ = rec_open
+    pseq.iter_splitlines = lambda p: orig_iter(p, chunk_size=chunk_size)
+    try:
+        if which == "fasta_strict":
+            res = _exc(lambda: _recs(MinimalFastaParser(orig_iter(path, chunk_size=chunk_size), strict=True)))
+        elif which == "fasta_faster":
+            res = _exc(lambda: _recs(MinimalFastaParser(orig_iter(path, chunk_size=chunk_size), strict=False)))
+        else:
+            res = _exc(lambda: _recs(pseq.PARSERS[which](path)))
+    finally:
+        c3io.open_ = orig_open
+        pseq.iter_splitlines = orig_iter
+    return res, chunks
+
+
+STREAM_PARSERS = {"fasta": ["fasta_strict", "fasta_faster"], "gde": ["gde"], "paml": ["paml"], "phylip": ["phylip"]}
+
+
+def _chunk_sizes(nbytes, rng, k=14):
+    """every small chunk size, sizes around the file length, plus a few random ones"""
+    cs = set(range(1, min(nbytes + 2, 9))) | {max(1, nbytes - 1), nbytes, nbytes + 1}
+    while len(cs) < min(k, nbytes + 1):
+        cs.add(rng.randint(1, nbytes + 1))
+    return sorted(cs)
+
+
+
+# --------------------------------------------------------------------------
+# well-formed FASTA that is not writer shaped (Spec/FastaText.lean)
+# --------------------------------------------------------------------------
+EOLS = {"lf": "\n", "crlf": "\r\n", "eof": ""}
+
+
+def gen_general(rng, lower_ok=True):
+    """a structured general FASTA file: list of {pre,name,post,crlf,body:[[content,term],...]} satisfying wfFile"""
+    recs = []
+    for _ in range(rng.randint(1, 4)):
+        name = "" if rng.random() < 0.1 else gen_name(rng)
+        ws = lambda: "".join(rng.choice(" \t") for _ in range(rng.choice([0, 0, 0, 1, 2])))
+        body = []
+        mt = rng.choice(["dna", "rna", "protein"])
+        for _ in range(rng.randint(1, 5)):
+            r = rng.random()
+            if r < 0.2:
+                content = ""
+            elif r < 0.27:
+                content = rng.choice([" ", "\t ", "  "])
+            else:
+                res = gen_seq(rng, mt, rng.choice([1, 2, 3, 5, 8, 60, 61]), rng.random() < 0.5)
+                if lower_ok and rng.random() < 0.25:
+                    res = res.lower()
+                if len(res) > 2 and rng.random() < 0.3:
+                    k = rng.randint(1, len(res) - 1)
+                    res = res[:k] + rng.choice([" ", "\t", "  "]) + res[k:]
+                content = ws() + res + ws()
+            body.append([content, rng.choice(["lf", "lf", "crlf"])])
+        if not any(c for c, _ in body):
+            body[rng.randrange(len(body))][0] = gen_seq(rng, mt, 4, False)
+        recs.append(dict(pre=ws(), name=name, post=ws(), crlf=rng.random() < 0.3, body=body))
+    if rng.random() < 0.3 and recs[-1]["body"][-1][0] != "":
+        recs[-1]["body"][-1][1] = "eof"
+    return recs
+
+
+def general_text(recs):
+    return "".join(
+        ">" + g["pre"] + g["name"] + g["post"] + ("\r\n" if g["crlf"] else "\n") + "".join(c + EOLS[t] for c, t in g["body"])
+        for g in recs
+    )
+
+
+def general_records(recs):
+    return [[g["name"], "".join(c for c, _ in g["body"]).replace(" ", "").replace("\t", "")] for g in recs]
+
+
+def _py_wf_file(recs):
+    """plain-Python reading of Spec.FastaText.wfFile"""
+    def printable(c):
+        return 32 <= ord(c) <= 126
+
+    def body_char(c):
+        return c in " \t" or (printable(c) and c not in " #>")
+
+    n = len(recs)
+    for i, g in enumerate(recs):
+        last = i == n - 1
+        nm = g["name"]
+        if any(c not in " \t" for c in g["pre"] + g["post"]):
+            return False
+        if not all(printable(c) for c in nm) or nm[:1] == " " or nm[-1:] == " ":
+            return False
+        body = g["body"]
+        if not all(body_char(c) for cont, _ in body for c in cont):
+            return False
+        if not any(cont for cont, _ in body):
+            return False
+        for j, (cont, t) in enumerate(body):
+            if t == "eof" and not (j == len(body) - 1 and last and cont != ""):
+                return False
+    return True
+
+
+def real_fasta_variants(scratch, text, tag="gv"):
+    """every FASTA parser variant of the library on one file"""
+    from pathlib import Path
+
+    from cogent3.parse.fasta import MinimalFastaParser, iter_fasta_records
+
+    p = Path(scratch) / f"{tag}.fasta"
+    p.write_bytes(text.encode("latin-1"))
+    lines = text.replace("\r\n", "\n").split("\n")
+    if lines and lines[-1] == "":
+        lines.pop()
+    res = {
+        "strict(path)": _exc(lambda: _recs(MinimalFastaParser(str(p), strict=True))),
+        "non-strict(path)": _exc(lambda: _recs(MinimalFastaParser(str(p), strict=False))),
+        "strict(lines)": _exc(lambda: _recs(MinimalFastaParser(lines, strict=True))) if lines else None,
+        "iter_fasta_records(lines)": _exc(lambda: _recs(iter_fasta_records(lines))) if lines else None,
+        "iter_fasta_records(path)": _exc(lambda: _recs(iter_fasta_records(p))),
+        "iter_fasta_records(bytes)": _exc(lambda: _recs(iter_fasta_records(text.encode("latin-1")))),
+    }
+    p.unlink()
+    return {k: v for k, v in res.items() if v is not None}
+
+
+BYTES_BASED = ("iter_fasta_records(path)", "iter_fasta_records(bytes)")
+
+
+def _up(recs):
+    return [[a, b.upper()] for a, b in recs] if isinstance(recs, list) else recs
+
+
+def variants_once(scratch, stream, text, want=None):
+    """one text of a stream of the spec-level parser-agreement check -> list of (sig, expected, got, variant)
+    streams: general (wfFile texts: every variant must return `want`; the bytes based ones its upper-casing, the
+    documented minimal_converter), and the four kinds of input on which the parsers are known to disagree."""
+    bad = []
+    if stream == "gde-hash":
+        from cogent3.parse.fasta import MinimalGdeParser
+
+        ls = text.splitlines()
+        a = _exc(lambda: _recs(MinimalGdeParser(ls, strict=True)))
+        b = _exc(lambda: _recs(MinimalGdeParser(ls, strict=False)))
+        if a != want or b != want:
+            bad.append(("agree:gde:hash-label", want, dict(strict=a, non_strict=b), "MinimalGdeParser strict vs non-strict"))
+        return bad
+    got = real_fasta_variants(scratch, text)
+    if stream == "general":
+        for which, g in got.items():
+            # MinimalFastaParser documents "as written"; iter_fasta_records documents its converter (upper-casing),
+            # whatever the type of its input: the list dispatch has to equal the bytes dispatch
+            exp = _up(want) if which in BYTES_BASED + ("iter_fasta_records(lines)",) else want
+            if g != exp:
+                if which == "iter_fasta_records(lines)" and _up(g) == exp:
+                    sig = "agree:fasta:case-dispatch"
+                else:
+                    sig = "agree:fasta:general:" + which
+                bad.append((sig, exp, g, which))
+    elif stream == "case-dispatch":
+        a, b = got["iter_fasta_records(lines)"], got["iter_fasta_records(bytes)"]
+        if a != b:
+            bad.append(("agree:fasta:case-dispatch", b, a, "iter_fasta_records(lines) vs iter_fasta_records(bytes)"))
+    elif stream == "pre-label":
+        for which in BYTES_BASED:
+            if got[which] != _up(want):
+                bad.append(("agree:fasta:pre-label-text", _up(want), got[which], which))
+        if got["strict(path)"] != want:
+            bad.append(("agree:fasta:pre-label-text:strict", want, got["strict(path)"], "strict(path)"))
+    elif stream == "comment":
+        if got["strict(path)"] != want:
+            bad.append(("agree:fasta:comment-line:strict", want, got["strict(path)"], "strict(path)"))
+        for which in ("non-strict(path)",) + BYTES_BASED:
+            exp = _up(want) if which in BYTES_BASED else want
+            if got[which] != exp:
+                bad.append(("agree:fasta:comment-line", exp, got[which], which))
+    elif stream == "empty-record":
+        a, b = got["non-strict(path)"], got["iter_fasta_records(bytes)"]
+        if _up(a) != b:
+            bad.append(("agree:fasta:empty-record", _up(a), b, "non-strict line parser vs iter_fasta_records(bytes)"))
+    return bad
+
+
 # --------------------------------------------------------------------------
 # correspondence: Lean model vs real implementation
 # --------------------------------------------------------------------------
@@ -226,7 +422,22 @@ def correspondence(ctx):
         "non-trivial = distinct input whose real result is a non-empty record/line list or an exception"
     )
     rng = ctx.subrng("corr")
-    drv = ctx.driver
+
+    # Two behaviour switches of the model (Model/SeqFormats.lean `Cfg`) are read off the code under test by one probe
+    # each; the code is then compared with THAT model on all inputs.  Every theorem is proved for every Cfg.
+    cfg = {
+        "cfg_drop_pre_label": real_bytes("x\n>a\nAC\n") == [["a", "AC"]],
+        "cfg_gde_hash_label": real_strict(["#a", "AC"], "%#") == [["a", "AC"]],
+    }
+    for k, v in cfg.items():
+        bump(out, k, v)
+    ctx.notes.append(f"model behaviour switches probed from the code: {cfg}")
+
+    class _Drv:
+        def batch(self, reqs):
+            return ctx.driver.batch([(c, dict(o, **cfg)) for c, o in reqs])
+
+    drv = _Drv()
 
     # ---- 1. str.splitlines ------------------------------------------------
     texts = []
@@ -287,6 +498,37 @@ def correspondence(ctx):
         if ok and len(out["samples"]) < 2 and len(chunks) > 3 and len(real) > 2:
             out["samples"].append(dict(kind="iter_splitlines", text=t, chunk_size=cs, lines=real))
 
+    # ---- 2b. parser o iter_splitlines as ONE composition, small chunk sizes, every format ----------
+    from cogent3.format.alignment import FORMATTERS
+
+    sreq2, sreal2, smeta2 = [], [], []
+    for i in range(ctx.budget(24, 240)):
+        mt, names, seqs = gen_recset(rng, ragged=False, distinct_trunc=False, small=True)
+        if i % 6 == 5:  # malformed: names with outer blanks / ragged lengths
+            names = gen_names(rng, len(names), wf=False)
+            seqs = [s[: rng.randint(1, len(s))] for s in seqs[: len(names)]]
+        names, seqs = names[:3], seqs[:3]
+        bs = rng.choice([1, 2, 3, 5, 60])
+        for fam, parsers in STREAM_PARSERS.items():
+            text = real_format(fam, names, seqs, bs)
+            if not isinstance(text, str):
+                continue
+            if i % 5 == 4:
+                text = text.replace("\n", "\r\n")
+            p = d / f"st{i}.{fam}"
+            p.write_bytes(text.encode("latin-1"))
+            for which in parsers:
+                for cs in _chunk_sizes(len(text), rng, 10):
+                    real, chunks = real_streamed(which, p, cs)
+                    sreq2.append(("streamed", {"parser": which, "chunks": chunks}))
+                    sreal2.append(real)
+                    smeta2.append((which, text, cs))
+    for (which, text, cs), real, m in zip(smeta2, sreal2, drv.batch(sreq2)):
+        _cmp(out, f"streamed composition {which} o iter_splitlines: model differs", dict(parser=which, text=text, chunk_size=cs),
+             m, real, ("st", which, text, cs) if real else None)
+        bump(out, "streamed_parser", which)
+        bump(out, "streamed_chunk_size", cs if cs <= 8 else ">8")
+
     # ---- 3. writers ----------------------------------------------------------
     wreq, wreal, wmeta = [], [], []
     n_sets = ctx.budget(500, 5000)
@@ -334,17 +576,10 @@ def correspondence(ctx):
 
     # ---- 4. parsers: writer output + malformed stream -------------------------
     preq, preal, pmeta = [], [], []
-    # The model carries two record splitters for iter_fasta_records(bytes): the one the pinned code uses
-    # (split on ">" anywhere; theorem fasta_parsers_agree_partial + fasta_bytes_gt_counter) and the repaired one
-    # (split at line starts; theorem fasta_parsers_agree_repaired).  One probe decides which of the two the code
-    # under test is compared with -- on ALL inputs below.
-    bytes_cmd = "fasta_bytes" if real_bytes(">a>b c\nACGT\n") == [["b c", "ACGT"]] else "fasta_bytes_ls"
-    bump(out, "bytes_record_splitter", "gt-anywhere" if bytes_cmd == "fasta_bytes" else "line-start")
-    ctx.notes.append(
-        "iter_fasta_records(bytes) corresponds to the model splitter "
-        + ("fastaBytes (split on '>' anywhere): agreement needs the no-'>' hypothesis" if bytes_cmd == "fasta_bytes"
-           else "fastaBytesLS (split at line starts): fasta_parsers_agree_repaired applies, no hypothesis on labels")
-    )
+    # fastaBytes models the code as committed: records split by _label_start = (?:\A|(?<=\n))> .  There is no
+    # second model any more: if the historical splitter (data.split(b">")) comes back, this correspondence
+    # breaks, the spec-level round trip fails and the regression witness of C06-fasta-bytes-gt fires.
+    bytes_cmd = "fasta_bytes"
 
     def add(cmd, arg, real, what):
         preq.append((cmd, arg))
@@ -425,6 +660,41 @@ def correspondence(ctx):
         sreal.append(_exc(lambda s=s: int(s)))
     for (cmd, arg), real, m in zip(sreq, sreal, drv.batch(sreq)):
         _cmp(out, f"primitive {cmd}: model differs", arg, m, real, None)
+
+    # ---- 7. general (not writer shaped) FASTA: Spec/FastaText tied to its plain-Python reading, and the three model
+    #         parsers tied to the three real ones on the same raw text (well-formed AND the excluded shapes) -----------
+    greq, gmeta = [], []
+    for _ in range(ctx.budget(250, 3000)):
+        recs = gen_general(rng)
+        r = rng.random()
+        if r < 0.25:  # break well-formedness in one of the excluded ways: still must correspond
+            k = rng.randrange(len(recs))
+            how = rng.choice(["empty-body", "comment", "eof-middle", "gt-line", "name-blank"])
+            if how == "empty-body":
+                recs[k]["body"] = [["", "lf"]] * rng.randint(0, 2)
+            elif how == "comment":
+                recs[k]["body"].insert(rng.randrange(len(recs[k]["body"]) + 1), ["#" + gen_name(rng), "lf"])
+            elif how == "eof-middle" and len(recs) > 1:
+                recs[0]["body"][-1][1] = "eof"
+            elif how == "gt-line":
+                recs[k]["body"].insert(0, [" >x", "lf"])
+            else:
+                recs[k]["name"] = " " + recs[k]["name"]
+        greq.append(("general", {"recs": recs}))
+        gmeta.append(recs)
+    for recs, m in zip(gmeta, drv.batch(greq)):
+        text = general_text(recs)
+        pywf = _py_wf_file(recs)
+        _cmp(out, "Spec.FastaText.fileRaw differs from the plain-Python text", {"recs": recs}, m["text"], text)
+        _cmp(out, "Spec.FastaText.wfFile differs from its plain-Python reading", {"recs": recs}, m["wf"], pywf)
+        _cmp(out, "Spec.FastaText.records differs from its plain-Python reading", {"recs": recs}, m["records"], general_records(recs))
+        real = real_fasta_variants(d, text)
+        for mk, rk in (("strict", "strict(path)"), ("faster", "non-strict(path)"), ("bytes", "iter_fasta_records(bytes)")):
+            _cmp(out, f"general FASTA text: model {mk} parser differs from {rk}", {"text": text}, m[mk], real[rk],
+                 ("gen", mk, text) if real[rk] else None)
+        bump(out, "general_texts", "well-formed" if pywf else "excluded-shape")
+        if pywf and len(out["samples"]) < 7 and "\r\n" in text and len(recs) > 1:
+            out["samples"].append(dict(kind="general FASTA text", text=text, records=general_records(recs)))
 
     # ---- 6. the specification predicates (Spec/SeqRecords.lean) --------------------
     # the hypotheses of the round-trip theorems (wfName / wfSeq / noLower) and the PHYLIP truncation (truncName) against
@@ -749,6 +1019,43 @@ def spec_check(ctx, budget):
                                dict(check="agree_fmt", fmt=fam, names=names, seqs=seqs, block_size=bs, variant=which),
                                want, got, f"agree:{fam}:{which}")
 
+    # ---- B2. well-formed FASTA that is not writer shaped: every variant returns the records ------------
+    for i in range(60 * budget):
+        recs = gen_general(rng)
+        text, want = general_text(recs), general_records(recs)
+        out["evaluations"] += 1
+        out["nontrivial"].add(("general", text))
+        bump(out, "general_spec", "crlf" if "\r\n" in text else "lf")
+        for sig, w, got, which in variants_once(scratch, "general", text, want):
+            _spec_fail(out, f"FASTA parser variant {which} differs on a well-formed (not writer shaped) text ({sig})",
+                       dict(check="variants", stream="general", text=text, want=want, variant=which), w, got, sig)
+    # ---- B3. the shapes on which the parsers of the library disagree (outside wfFile): tracked as findings ----
+    for i in range(5 * budget):
+        recs = gen_general(rng, lower_ok=False)
+        base, want = general_text(recs), general_records(recs)
+        junk = "".join(rng.choice(["\n", "\r\n", "# " + gen_name(rng) + "\n", "#\n"]) for _ in range(rng.randint(1, 3)))
+        k = rng.randrange(len(recs))
+        com = [dict(g, body=list(g["body"])) for g in recs]
+        com[k]["body"].insert(rng.randrange(1, len(com[k]["body"]) + 1) if rng.random() < 0.7 else 0, ["#" + gen_name(rng), "lf"])
+        if com[k]["body"][-1][1] == "eof" or any(t == "eof" for _, t in com[k]["body"][:-1]):
+            com[k]["body"] = [[c, "lf" if t == "eof" else t] for c, t in com[k]["body"]]
+        emp = [dict(g) for g in recs]
+        emp.insert(rng.randrange(len(emp) + 1), dict(pre="", name=gen_name(rng), post="", crlf=False, body=[]))
+        if emp[-1]["body"] == []:
+            emp = emp[-1:] + emp[:-1]
+        emp = [dict(g, body=[[c, "lf" if t == "eof" else t] for c, t in g["body"]]) for g in emp]
+        low = general_text([dict(g, body=[[c.lower(), t] for c, t in g["body"]]) for g in recs])
+        gde_names = gen_names(rng, 2)
+        gde = f"#{gde_names[0]}\nACGT\nAC\n%{gde_names[1]}\nGGTT\n" if i % 2 else f"%{gde_names[0]}\nACGT\n#{gde_names[1]}\nGGTT\nAA\n"
+        gde_want = [[gde_names[0], "ACGTAC"], [gde_names[1], "GGTT"]] if i % 2 else [[gde_names[0], "ACGT"], [gde_names[1], "GGTTAA"]]
+        for stream, text, w in (("pre-label", junk + base, want), ("comment", general_text(com), want),
+                                ("empty-record", general_text(emp), None), ("case-dispatch", low, None), ("gde-hash", gde, gde_want)):
+            out["evaluations"] += 1
+            bump(out, "disagreement_streams", stream)
+            for sig, ww, got, which in variants_once(scratch, stream, text, w):
+                _spec_fail(out, f"parser variants disagree ({sig}): {which}",
+                           dict(check="variants", stream=stream, text=text, want=w, variant=which), ww, got, sig)
+
     # ---- C. every chunk size gives the same lines --------------------------------
     from cogent3.util.io import iter_splitlines
 
@@ -766,6 +1073,30 @@ def spec_check(ctx, budget):
                 _spec_fail(out, "iter_splitlines depends on the chunk size",
                            dict(check="chunks", text=text, chunk_size=cs), want, got, "chunks:lines-differ")
         bump(out, "chunk_files", "crlf" if "\r\n" in text else "lf")
+
+    # ---- C2. parser o iter_splitlines on the real code: every format, small chunk sizes ------------
+    from cogent3.format.alignment import FORMATTERS as _FMT
+
+    for i in range(6 * budget):
+        mt, names, seqs = gen_recset(rng, ragged=False, distinct_trunc=True, small=i % 3 != 0)
+        bs = rng.choice([1, 3, 7, 59, 60, 61])
+        for fam, parsers in STREAM_PARSERS.items():
+            text = _FMT[fam](dict(zip(names, seqs)), block_size=bs, order=list(names))
+            if i % 4 == 3:
+                text = text.replace("\n", "\r\n")
+            p = scratch / f"stream.{fam}"
+            p.write_bytes(text.encode("latin-1"))
+            want = [[trunc_name(n) if fam == "phylip" else n, s] for n, s in zip(names, seqs)]
+            for which in parsers:
+                for cs in _chunk_sizes(len(text), rng, 12):
+                    got, _ = real_streamed(which, p, cs)
+                    out["evaluations"] += 1
+                    out["nontrivial"].add(("stream", which, text, cs))
+                    bump(out, "streamed_real", which)
+                    if got != want:
+                        _spec_fail(out, f"{which}(iter_splitlines(path, chunk_size={cs})) differs from the records written",
+                                   dict(check="streamed", parser=which, fmt=fam, text=text, chunk_size=cs, want=want),
+                                   want, got, f"streamed:{which}")
 
     # ---- D. GenBank parser variants (exercised only: no model, no theorem) ------------
     for i in range(12 * budget):
@@ -820,6 +1151,15 @@ def _rerun(ctx, inp):
         for sig, w, got, which in _agree_once(scratch, inp["text"], want, tag="rp"):
             if inp.get("variant") in (None, which):
                 add_failure(out, "spec", f"FASTA parser variant {which} differs ({sig})", dict(inp, variant=which), w, got, sig=sig)
+    elif chk == "variants":
+        for sig, w, got, which in variants_once(scratch, inp["stream"], inp["text"], inp.get("want")):
+            add_failure(out, "spec", f"parser variants disagree ({sig}): {which}", dict(inp, variant=which), w, got, sig=sig)
+    elif chk == "streamed":
+        p = scratch / f"rp.{inp['fmt']}"
+        p.write_bytes(inp["text"].encode("latin-1"))
+        got, _ = real_streamed(inp["parser"], p, inp["chunk_size"])
+        if got != inp["want"]:
+            add_failure(out, "spec", f"{inp['parser']}(iter_splitlines(path, chunk_size)) differs", inp, inp["want"], got, sig=f"streamed:{inp['parser']}")
     elif chk == "genbank":
         res = genbank_once(scratch, inp["text"], [tuple(w) for w in inp["want"]])
         if res:
